@@ -35,6 +35,21 @@ for mp in sorted(glob.glob(os.path.join(HERE, 'seeded', '*', 'meta.json'))):
     if own_t is not None:
         owns += f" (thorough: {{1: 'fires', 0: 'silent', 2: 'inconclusive'}}[own_t])".replace("{1: 'fires', 0: 'silent', 2: 'inconclusive'}[own_t]", {1: 'fires', 0: 'silent', 2: 'inconclusive'}[own_t])
     lines.append(f"| {m['id']} | {m['property']} | {'yes' if m.get('confirmed') else 'NO'} | {owns} | {', '.join(m.get('caught_by', [])) or '-'} |")
+lines.append('')
+lines.append('### 5.3 Behaviour-preserving changes (benign/<id>/, tools/benign.py): no check may fire\n')
+lines.append('Changes that keep every property true (own ones, and ones written by independent sub-agents together with a program that '
+             'checks the property itself and passes with and without the change).  `silent` = exit 0, neither a violation nor an '
+             'inconclusive run; anything else is a false alarm of the machinery and is listed.\n')
+lines.append('| change | written for | suite | demo passes with / without | checks silent | alarms |')
+lines.append('|---|---|---|---|---|---|')
+for mp in sorted(glob.glob(os.path.join(HERE, 'benign', '*', 'meta.json'))):
+    m = json.load(open(mp))
+    ch = m.get('checks', {})
+    noisy = sorted(k for k, v in ch.items() if v['exit'] != 0)
+    ran = m.get('ran', {})
+    demo = f"{ran['demo_with_change']['exit'] == 0} / {ran['demo_unchanged']['exit'] == 0}" if ran else 'n/a (own)'
+    lines.append(f"| {m['id']} | {m.get('property', '-')} | {'passes' if m.get('suite_passes_with_change') else 'fails'} | {demo} | "
+                 f"{len(ch) - len(noisy)}/{len(ch)} | {', '.join(noisy) or '-'} |")
 block = '\n'.join(lines)
 p = os.path.join(HERE, 'DESIGN.md')
 s = open(p).read()
